@@ -18,10 +18,11 @@ def final_coverage_zero(out):
 META = dict(
     spec="GatewayCar",
     level_text=("TLA+ rules (CarRules, written from the trustless-gateway spec / IPIP-402) say which blocks a client needs for a "
-                "path, dag-scope, entity-bytes range and dups flag; TLC checks the as-built traversal model (resolver loads, "
+                "path, dag-scope, entity-bytes range and duplicates policy (y / n / unspecified); TLC checks the as-built traversal model (resolver loads, "
                 "ExploreAll DFS, unixfsnode Seek+Copy, HAMT preload, de-duplicating CAR writer) against them on a family of small "
-                "trees; every (tree, path) x 24 requests of that family is replayed through gateway.NewHandler over a BlocksBackend "
-                "and the parsed CAR / raw body is compared with the TLC-emitted sets; responses on large random importer/HAMT trees "
+                "trees; every (tree, path) x 72 requests of that family (12 scope/range shapes x 3 policies x entry point: "
+                "gateway.NewHandler over a BlocksBackend, or a direct BlocksBackend.GetCAR(CarParams) call incl. the zero-value "
+                "policy) is replayed and the parsed CAR / raw body is compared with the TLC-emitted sets; responses on large random importer/HAMT trees "
                 "are validated block by block by TraceGatewayCar; each CAR is also re-read offline from an empty blockstore."),
     level_note=("Trusted: go-car reader (framing only, hashes re-computed by the harness), CID<->node-id projection (block = multihash), "
                 "UnixFS decoding used for the projection, the harness DAG builder (cross-checked against the projection). "
@@ -38,9 +39,10 @@ def run(ctx):
                         "requests address existing paths of well-formed UnixFS DAGs"]
     ctx.cov["rule"] = ("G: TLC enumerates trees {root dir kind} x {entry kinds per name: none / empty, single-block, raw, 3-chunk, "
                        "2-level, repeated-chunk file / basic or HAMT sub-directory} x every resolving path (depth 0..2) x "
-                       "{block, all, entity, entity x 9 entity-bytes forms relative to the file size} x dups; expected block sets "
+                       "{block, all, entity, entity x 9 entity-bytes forms relative to the file size} x duplicates policy {y, n, unspecified} x "
+                       "{HTTP handler, direct backend GetCAR call}; expected block sets "
                        "computed in TLA+.  T: random trees (importer balanced/trickle, raw/pb leaves, HAMT fan-out 8, files <= 1 MiB) "
-                       "with random scopes/ranges.  non-trivial = a (tree,path) whose requests have >= 3 distinct required block sets")
+                       "with random scopes/ranges/policies/entry points, every 4th file repetitive (repeated chunks).  non-trivial = a (tree,path) whose requests have >= 3 distinct required block sets")
     # ---- M
     res = ctx.tlc_mc("GatewayCar", "GatewayCar.tla", "MCGatewayCarQuick.cfg" if q else "MCGatewayCar.cfg",
                      timeout=300 if q else 2400, coverage=not q, allow_zero=("Load", "Finish", "Next"))
@@ -78,7 +80,7 @@ def run(ctx):
         for i, r in enumerate(rs):
             if r["ev"] == "Dag":
                 dag = r
-            if r["ev"] == "Req" and not r["dups"]:
+            if r["ev"] == "Req" and r["dups"] != "y":
                 j = i + 1
                 while j < len(rs) and rs[j]["ev"] == "Block":
                     j += 1
